@@ -2,6 +2,7 @@
 # Every seeded change must still apply to /repo's HEAD (git -C /repo apply --check).
 rc=0
 for d in /verif/seeded/*/; do
+  [ -e ${d}RETIRED ] && { echo "retired (see meta.json): $d"; continue; }
   git -C /repo apply --check ${d}patch.diff 2>/dev/null || { echo "DOES NOT APPLY: $d"; rc=1; }
 done
 [ $rc = 0 ] && echo "all $(ls -d /verif/seeded/*/ | wc -l) seeded patches apply to $(git -C /repo rev-parse --short HEAD)"
